@@ -1,6 +1,7 @@
 package c20
 
 import (
+	"encoding/hex"
 	"fmt"
 	"strings"
 	"sync"
@@ -713,6 +714,9 @@ for ($i = 0; $i < %d; $i++) {
 		}
 		return ab.String(), bb.String(), []string{"regex_same_body_other_modifiers"}
 	case 6:
+		if r.Intn(2) == 0 {
+			return replacedFile(r)
+		}
 		// A and B include the same files (by absolute path): what a file defines and returns
 		// must reach every VM that includes it, whatever an earlier VM of the process did with it
 		uses := []struct{ label, a, b string }{
@@ -775,4 +779,51 @@ for ($i = 0; $i < %d; $i++) {
 		bb.WriteString("throw new Exception(\"B throws\");\n")
 	}
 	return ab.String(), bb.String(), []string{strings.Join(names, "+")}
+}
+
+// replacedFile: A and B see ONE path with two contents (a file replaced between two runs of one process): B must run
+// what is on the disk when B starts. The disk chooses lengths and modification times: same or different.
+func replacedFile(r *verifsim.Rng) (a, b string, parts []string) {
+	put := func(name string, sec int64, text string) string {
+		return fmt.Sprintf("#@put %s %d %s\n", name, sec, hex.EncodeToString([]byte(text)))
+	}
+	ta := int64(1700000000)
+	tb := ta
+	timeKind := "same_mtime"
+	if r.Intn(3) == 0 {
+		tb = ta + verifsim.Pick(r, []int64{1, 2, 3600, -5})
+		timeKind = "other_mtime"
+	}
+	pad := ""
+	lenKind := "same_length"
+	if r.Intn(3) == 0 {
+		pad = strings.Repeat(" ", 1+r.Intn(9))
+		lenKind = "other_length"
+	}
+	va, vb := verifsim.Pick(r, []string{"alpha", "gamma"}), verifsim.Pick(r, []string{"omega", "delta"})
+	na, nb := 10+r.Intn(40), 50+r.Intn(40)
+	kind := verifsim.Pick(r, []string{"include", "require", "require_once", "include_once", "class_file", "main", "nested"})
+	switch kind {
+	case "main":
+		a = fmt.Sprintf("#@main %d\n<?php\necho \"main_version=\", \"%s\", \"|\", %d, \"\\n\";\n", ta, va, na)
+		b = fmt.Sprintf("#@main %d\n<?php\necho \"main_version=\", \"%s\", \"|\", %d, \"\\n\";%s\n", tb, vb, nb, pad)
+	case "class_file":
+		fa := fmt.Sprintf("<?php\nclass SwapK { public $n = %d; public function tag() { return \"%s\"; } }\n", na, va)
+		fb := fmt.Sprintf("<?php\nclass SwapK { public $n = %d; public function tag() { return \"%s\"; } }%s\n", nb, vb, pad)
+		a = put("SwapK.php", ta, fa) + "<?php\nrequire_once \"@SWAP@/SwapK.php\"; $k = new SwapK(); $t = $k->tag();\n"
+		b = put("SwapK.php", tb, fb) + "<?php\nrequire_once \"@SWAP@/SwapK.php\"; $k = new SwapK(); echo \"swap_class=\", $k->tag(), \"|\", $k->n, \"\\n\";\n"
+	case "nested":
+		// the replaced file is included by an unchanged file
+		outer := "<?php\n$inner = include \"@SWAP@/inner.php\";\nreturn [\"outer\" => 1, \"inner\" => $inner];\n"
+		fa := fmt.Sprintf("<?php\nreturn [\"limit\" => %d, \"name\" => \"%s\"];\n", na, va)
+		fb := fmt.Sprintf("<?php\nreturn [\"limit\" => %d, \"name\" => \"%s\"];%s\n", nb, vb, pad)
+		a = put("outer.php", ta, outer) + put("inner.php", ta, fa) + "<?php\n$r = include \"@SWAP@/outer.php\";\n"
+		b = put("outer.php", ta, outer) + put("inner.php", tb, fb) + "<?php\n$r = include \"@SWAP@/outer.php\"; echo \"swap_nested=\", json_encode($r), \"\\n\";\n"
+	default:
+		fa := fmt.Sprintf("<?php\nreturn [\"limit\" => %d, \"name\" => \"%s\"];\n", na, va)
+		fb := fmt.Sprintf("<?php\nreturn [\"limit\" => %d, \"name\" => \"%s\"];%s\n", nb, vb, pad)
+		a = put("lib.php", ta, fa) + fmt.Sprintf("<?php\n$r = %s \"@SWAP@/lib.php\";\n", kind)
+		b = put("lib.php", tb, fb) + fmt.Sprintf("<?php\n$r = %s \"@SWAP@/lib.php\"; echo \"swap_%s=\", json_encode($r), \"\\n\";\n", kind, kind)
+	}
+	return a, b, []string{"replaced_file:" + kind + ":" + lenKind + ":" + timeKind}
 }
